@@ -655,7 +655,9 @@ func c07RandPolicies(rng *kit.Rand, parentPols []string, ro *c07Role) []string {
 		}
 		return s
 	}
-	extra := func() string { return kit.Pick(rng, append(append([]string{}, c07Content...), "ghost", "sudo-create", "sudo-glob")) }
+	extra := func() string {
+		return kit.Pick(rng, append(append([]string{}, c07Content...), "ghost", "sudo-create", "sudo-glob"))
+	}
 	var out []string
 	switch k := rng.Intn(20); {
 	case k < 4:
@@ -916,18 +918,28 @@ func TestVerif_C07_Lattice(t *testing.T) {
 		return ps
 	}
 	roles := map[string]func(name string) *c07Role{
-		"role-nolists":    func(n string) *c07Role { return &c07Role{Name: n, Renewable: true} },
-		"role-allowed":    func(n string) *c07Role { return &c07Role{Name: n, Renewable: true, Allowed: []string{"a", "c", "ops-x"}} },
-		"role-allowglob":  func(n string) *c07Role { return &c07Role{Name: n, Renewable: true, Allowed: []string{"c"}, AllowedGlob: []string{"dev-*"}} },
+		"role-nolists": func(n string) *c07Role { return &c07Role{Name: n, Renewable: true} },
+		"role-allowed": func(n string) *c07Role {
+			return &c07Role{Name: n, Renewable: true, Allowed: []string{"a", "c", "ops-x"}}
+		},
+		"role-allowglob": func(n string) *c07Role {
+			return &c07Role{Name: n, Renewable: true, Allowed: []string{"c"}, AllowedGlob: []string{"dev-*"}}
+		},
 		"role-disallowed": func(n string) *c07Role { return &c07Role{Name: n, Renewable: true, Disallowed: []string{"b", "ops-x"}} },
-		"role-denyglob":   func(n string) *c07Role { return &c07Role{Name: n, Renewable: true, DisallowedGlob: []string{"ops-*", "b*"}} },
-		"role-both":       func(n string) *c07Role { return &c07Role{Name: n, Renewable: true, Allowed: []string{"a", "b", "c", "ops-x"}, Disallowed: []string{"b", "ops-x"}} },
-		"role-allowroot":  func(n string) *c07Role { return &c07Role{Name: n, Renewable: true, Allowed: []string{"root", "a"}} },
-		"role-emax":       func(n string) *c07Role { return &c07Role{Name: n, Renewable: true, ExplicitMax: "3h"} },
-		"role-nodefault":  func(n string) *c07Role { return &c07Role{Name: n, Renewable: true, NoDefault: true} },
-		"role-defbatch":   func(n string) *c07Role { return &c07Role{Name: n, Renewable: true, Type: "default-batch", ExplicitMax: "3h"} },
-		"role-orphan":     func(n string) *c07Role { return &c07Role{Name: n, Renewable: true, Orphan: true} },
-		"role-period":     func(n string) *c07Role { return &c07Role{Name: n, Renewable: true, Period: "20m"} },
+		"role-denyglob": func(n string) *c07Role {
+			return &c07Role{Name: n, Renewable: true, DisallowedGlob: []string{"ops-*", "b*"}}
+		},
+		"role-both": func(n string) *c07Role {
+			return &c07Role{Name: n, Renewable: true, Allowed: []string{"a", "b", "c", "ops-x"}, Disallowed: []string{"b", "ops-x"}}
+		},
+		"role-allowroot": func(n string) *c07Role { return &c07Role{Name: n, Renewable: true, Allowed: []string{"root", "a"}} },
+		"role-emax":      func(n string) *c07Role { return &c07Role{Name: n, Renewable: true, ExplicitMax: "3h"} },
+		"role-nodefault": func(n string) *c07Role { return &c07Role{Name: n, Renewable: true, NoDefault: true} },
+		"role-defbatch": func(n string) *c07Role {
+			return &c07Role{Name: n, Renewable: true, Type: "default-batch", ExplicitMax: "3h"}
+		},
+		"role-orphan": func(n string) *c07Role { return &c07Role{Name: n, Renewable: true, Orphan: true} },
+		"role-period": func(n string) *c07Role { return &c07Role{Name: n, Renewable: true, Period: "20m"} },
 	}
 	endpoints := []string{"create", "create-orphan", "role-nolists", "role-allowed", "role-allowglob", "role-disallowed", "role-denyglob", "role-both", "role-allowroot", "role-nodefault"}
 	requested := map[string][]string{
